@@ -18,6 +18,19 @@ CHECKS = {
         design_ref="DESIGN.md 7/C01",
         note="E1-E6 (fake MySQL semantics), TLC, synctest; weak reading: members count by ground truth dead or alive",
         technique="TLA+ model of the switchover (TLC exhaustive) + trace/row validation of real runs on fakes by TLC"),
+    "C02": dict(
+        category="model_checking",
+        text="Switchover.tla (TLC, with manager crash) covers the promotion/hand-over design; the property itself is decided on "
+             "the REAL daemon: a converged cluster on the wire-level fakes with a client workload suffers exactly one fault "
+             "(mysqld crash, host crash, machine cut off, mysync killed, ZooKeeper lost by one host or all) or one manual "
+             "switchover at a chosen instant of the tick/health cycle (round boundary or before the k-th SQL statement), is "
+             "healed after 1/4/12 rounds and given 32 rounds to settle; the end state (ground truth of every server, the "
+             "coordination tree, the acknowledged set and the acknowledgement log) is projected to a row and TLC evaluates "
+             "the C02 operators of ClusterProps on it (FinalRows.tla: one writable master = recorded master, reachable "
+             "replicas read-only and following, no acknowledged loss, single acknowledger).",
+        design_ref="DESIGN.md 7/C02",
+        note="E1-E7; convergence bound 32 rounds; grid sampled in quick, complete in thorough",
+        technique="TLA+ cluster predicates evaluated by TLC on end states of real single-fault runs on fakes + TLC model of the switchover"),
     "C03": dict(
         category="model_checking",
         text="ZkLock.tla models AcquireLock/ReleaseLock of internal/dcs/zk.go at request granularity with the lock cache, TTL, "
